@@ -223,7 +223,10 @@ class _Stack:
 
     for i in range(0, 2 * n, 2):
       v_elt, k_elt = args[i], args[i + 1]
-      ret.add(k_elt, v_elt)
+      try:
+        ret.add(k_elt, v_elt)
+      except TypeError as e:
+        raise ConstantError(f'TypeError: {e.args[0]}', op) from e
       k_elt.op.folded = op
       v_elt.op.folded = op
     return ret.build()
@@ -367,8 +370,11 @@ class _FoldConstants(pyc.CodeVisitor):
             tag, (kt, vt) = map_.typ
             assert tag == 'map'
             typ = (tag, (kt | {key.typ}, vt | {val.typ}))
-            value = {**map_.value, **{key.value: val.value}}
-            elements = {**map_.elements, **{key.value: val}}
+            try:
+              value = {**map_.value, **{key.value: val.value}}
+              elements = {**map_.elements, **{key.value: val}}
+            except TypeError as e:
+              raise ConstantError(f'TypeError: {e.args[0]}', op) from e
             stack.push(_Constant(typ, value, elements, op))
         elif isinstance(op, opcodes.DICT_UPDATE):
           elements = stack.fold_args(2, op)
